@@ -462,6 +462,8 @@ async fn run_task(
         .await;
 
     let _workspace_guard = workspace_lock.acquire().await;
+    #[cfg(rip_verif)]
+    rip_kernel::verif::span("task.exec", true, "");
     match execution_mode {
         ToolTaskExecutionMode::Pipes => {
             pipes::run_pipes_task(
@@ -494,6 +496,8 @@ async fn run_task(
             .await
         }
     }
+    #[cfg(rip_verif)]
+    rip_kernel::verif::span("task.exec", false, "");
 
     finalize_snapshot(&handle, &snapshot_dir).await;
 }
